@@ -142,3 +142,45 @@ def rejected_by_after_spawn(world):
     """pids for which an after_spawn hook call returned false / raised."""
     return set(kw.get('pid') for (t, wname, hname, outcome, kw) in world.hook_calls
                if hname == 'after_spawn' and outcome in (False, 'raise'))
+
+
+def write_ini(path, watchers, circus=None, sockets=None, env=None, envs=None):
+    """watchers: list of (name, {option: value}); returns path."""
+    lines = ['[circus]', 'check_delay = %s' % (circus or {}).get('check_delay', 1),
+             'endpoint = tcp://127.0.0.1:5555', 'pubsub_endpoint = tcp://127.0.0.1:5556']
+    for k, v in (circus or {}).items():
+        if k != 'check_delay':
+            lines.append('%s = %s' % (k, v))
+    for name, opts in (sockets or []):
+        lines.append('')
+        lines.append('[socket:%s]' % name)
+        for k, v in opts.items():
+            lines.append('%s = %s' % (k, v))
+    if env:
+        lines += ['', '[env]'] + ['%s = %s' % kv for kv in env.items()]
+    for name, opts in watchers:
+        lines.append('')
+        lines.append('[watcher:%s]' % name)
+        for k, v in opts.items():
+            lines.append('%s = %s' % (k, v))
+    for pat, kv in (envs or []):
+        lines += ['', '[env:%s]' % pat] + ['%s = %s' % x for x in kv.items()]
+    with open(path, 'w') as f:
+        f.write('\n'.join(lines) + '\n')
+    return path
+
+
+class Scratch(object):
+    """Scratch directory outside /repo and /verif, removed on close."""
+
+    def __init__(self):
+        import tempfile
+        self.dir = tempfile.mkdtemp(prefix='vt-scratch-')
+
+    def path(self, name):
+        import os
+        return os.path.join(self.dir, name)
+
+    def close(self):
+        import shutil
+        shutil.rmtree(self.dir, ignore_errors=True)
